@@ -327,7 +327,25 @@ def rope_lower(r, upper=False):
         if isinstance(ch, BL):
             items = _lit_items(ch)
             if items is None:
-                raise OutOfReach("case mapping of symbolic literal elements")
+                # symbolic elements: ASCII case mapping as a term (requires the element to be ASCII)
+                new = []
+                for it in ch.items:
+                    cst = it if isinstance(it, int) else const_of(it)
+                    if cst is not None:
+                        m = chr(cst).upper() if upper else chr(cst).lower()
+                        if len(m) != 1:
+                            raise OutOfReach("length-changing case mapping")
+                        new.append(ord(m))
+                        continue
+                    t = T(it)
+                    if not ctx().is_true(z3.And(t >= 0, t < 128)):
+                        raise OutOfReach("case mapping of a symbolic non-ASCII element")
+                    if upper:
+                        new.append(simp(z3.If(z3.And(t >= 97, t <= 122), t - 32, t)))
+                    else:
+                        new.append(simp(z3.If(z3.And(t >= 65, t <= 90), t + 32, t)))
+                out.append(BL(new))
+                continue
             s = "".join(chr(c) for c in items)
             s = s.upper() if upper else s.lower()
             out.append(BL([ord(c) for c in s]))
